@@ -637,7 +637,7 @@ pub fn parts() -> Vec<Box<dyn PartDyn>> {
     vec![Box::new(Part::<Case> {
         name: "e2e",
         rule: "client options (PLAIN with arbitrary user/password, EXTERNAL, a custom Sasl implementation, locale, virtual host, information, tuning values, connection_timeout none / 40-240 ms) x a scripted server: the happy path Start(mechanism and locale lists incl. near-miss tokens)/Tune/OpenOk-or-Close with 0-2 deviations spliced in (heartbeats, Secure, Close, any of the 64 methods on channel 0/1, a content header, a malformed frame, EOF, an I/O error, silence), every server frame optionally cut into 1-8 byte segments; oracle: a reference model of the handshake gives the exact client frames (StartOk fields incl. capabilities/information, TuneOk per the C15 spec, Open vhost, CloseOk) and the result (Ok only after OpenOk, then usable and exposing Start's server properties; otherwise the specific error; InvalidCredentials also accepted for silence / socket errors / malformed data while waiting for the reply to StartOk); the timeout error may not come before the timeout; non-trivial = deviation after at least one correct step, or frames cut into segments; distinct by case hash",
-        cases: |t| t.pick(1500, 40_000),
+        cases: |t| t.pick(6000, 100_000),
         threads: 16,
         strategy: strat,
         exec,
